@@ -57,4 +57,6 @@ USE_RET int mux_register(struct mux *mux,
 
 void mux_set_default(struct mux *mux, struct value def);
 
+USE_RET int mux_add_depend(struct mux *mux, struct chan *chan);
+
 #endif /* MUX_H */
